@@ -217,7 +217,7 @@ var c12Sel = []string{
 }
 var c12Dml = []string{
 	"CREATE TABLE `totals.csv` AS SELECT k, SUM(f) AS s, AVG(f) AS a FROM t GROUP BY k; SELECT SUM(s) FROM totals",
-	"UPDATE t SET f = (SELECT SUM(x.f) FROM t x) WHERE id % 50 = 1; SELECT AVG(f) FROM t",
+	"UPDATE t SET f = (SELECT SUM(x.f) FROM t x) WHERE id % 400 = 1; SELECT AVG(f) FROM t",
 	"INSERT INTO u (id, k, w) SELECT MAX(id) + 100000, k, SUM(f) FROM t GROUP BY k; SELECT SUM(w) FROM u",
 	"DECLARE pick AGGREGATE (c, @k) AS BEGIN VAR @n := 0; VAR @x; WHILE @x IN c DO @n := @n + 1; END WHILE; RETURN @k * 1000 + @n; END; SELECT id, pick(v, id) OVER (PARTITION BY k) FROM t; SELECT k, pick(v, 7) FROM t GROUP BY k",
 	"DECLARE wsum AGGREGATE (c, @w) AS BEGIN VAR @s := 0; VAR @x; WHILE @x IN c DO IF @x IS NOT NULL THEN @s := @s + @x * @w; END IF; END WHILE; RETURN @s; END; SELECT id, wsum(v, id % 3) OVER (PARTITION BY k ORDER BY id) FROM t",
